@@ -3,8 +3,9 @@
 spec:   spec/Tokens.tla (actions Push, Lag, Rename, RenameOne, ListNames; invariants C13_*)
 TLC:    exhaustive check of the bounded instances (thorough: plus seeded -simulate of a deeper one);
         every maximal behaviour (a well-formed token sequence and one call on it) is emitted
-replay: each token sequence is rendered as text in three spacings (dense `x(k-1)`, single spaces
-        `x ( k - 1 )`, the untokenize style `x (k -1 )`) and handed to the REAL
+replay: each token sequence is rendered as text in four layouts (dense `x(k-1)`, single spaces
+        `x ( k - 1 )`, the untokenize style `x (k -1 )`, dense padded with a blank at both ends
+        ` x(k-1) `) and handed to the REAL
         sfc_models.utils.replace_token_from_lookup / replace_token / list_tokens.  The returned text is
         re-tokenised with Python's tokenize and logged as (kind, text) pairs; for results that consist
         only of names, integer literals and + - * the text is evaluated on the two integer valuations
@@ -15,8 +16,16 @@ Readings (the weaker one where the statement leaves a choice):
 * "yields an expression whose value ... equals the original's" is demanded only on the arithmetic
   fragment (names, integer literals, + - * and unary minus, no brackets) and only for maps that are
   injective on the names of the expression - C13_ValuePreserved; elsewhere only the token clauses apply.
-* the spelling (blanks) of the returned text is not fixed by C13: a difference from what
-  tokenize.untokenize is modelled to do is reported as drift `untokenize_spelling`, never as a violation.
+* the spelling (blanks) of the returned text is not fixed by C13 (the docstring of replace_token says
+  "do not rely upon any particular behaviour for spaces"): a difference from what tokenize.untokenize
+  is modelled to do is reported as drift `untokenize_spelling`, never as a violation.  A shortcut that
+  returns some inputs unread therefore shows as this drift on the inputs where it is harmless (`2.5`)
+  and as a C13_* violation on those where it is not (`nan` with nan a key of the map).
+* "name" is what the tokenizer calls NAME.  Names that Python's number constructors also accept as
+  the text of a number (inf, nan, NaN, Infinity, INF, j) are names; they occur as the whole expression,
+  signed, blank-padded, as keys and images of the map and as bystanders (instances MC_Tokens_words*).
+* blanks before the first token make the tokenizer emit INDENT/DEDENT; these are layout like NEWLINE
+  and are not part of the token sequence that is compared.
 * a call that raises, or returns text tokenize cannot read, on a tokenizable input returned no
   expression: reported under C13_OnlyWholeNames (C13_ListIsNamesInOrder for list_tokens).
 Inputs are tokenizable by construction; a rendering that does not tokenize back to the generated
@@ -29,13 +38,14 @@ import tokenize
 
 from harness import core
 
-ENVS = [dict(x=6, x_1=3, xx=5, m_x=2, k=4, H__x=7),
-        dict(x=-4, x_1=2, xx=-3, m_x=7, k=-5, H__x=3)]
+ENVS = [dict(x=6, x_1=3, xx=5, m_x=2, k=4, H__x=7, inf=8, nan=9, NaN=10, Infinity=11, INF=12, j=13),
+        dict(x=-4, x_1=2, xx=-3, m_x=7, k=-5, H__x=3, inf=-6, nan=4, NaN=-7, Infinity=5, INF=-8, j=6)]
+NUMERIC_WORDS = ('inf', 'nan', 'NaN', 'Infinity', 'INF', 'j')      # Tokens!NumericWords
 INT_LITS = ('1', '2', '0x1f')
 ARITH_OPS = ('+', '-', '*')
-SPACINGS = ('dense', 'spaced', 'untok')
+SPACINGS = ('dense', 'spaced', 'untok', 'padded')
 KIND = {tokenize.NAME: 'NAME', tokenize.NUMBER: 'NUMBER', tokenize.OP: 'OP', tokenize.STRING: 'STRING'}
-SKIP = (tokenize.ENCODING, tokenize.NEWLINE, tokenize.NL, tokenize.ENDMARKER)
+SKIP = (tokenize.ENCODING, tokenize.NEWLINE, tokenize.NL, tokenize.ENDMARKER, tokenize.INDENT, tokenize.DEDENT)
 JOBS, MIN_CHUNK = 4, 3000   # few big TLC jobs beat many small ones here (measured: 4 x 11 000 traces 9 s, 15 x 3 000 36 s)
 INPUT_CLAUSES = ('input_grammar', 'input_tokenization', 'input_value', 'not_ready')
 
@@ -49,6 +59,8 @@ def render(toks, spacing):
         return ''.join(t['text'] for t in toks)
     if spacing == 'spaced':
         return ' '.join(t['text'] for t in toks)
+    if spacing == 'padded':
+        return ' ' + ''.join(t['text'] for t in toks) + ' '
     return ''.join(t['text'] + (' ' if t['kind'] in ('NAME', 'NUMBER') else '') for t in toks)
 
 
@@ -215,8 +227,28 @@ def signature(clause, beh, events):
         if not hit and g != t:
             return '%s:%s:touched-%s' % (fn, shape, t['kind'].lower() if t['kind'] != 'NAME' else 'other-name')
         if hit and g != {'kind': 'NAME', 'text': mm[t['text']]}:
-            return '%s:%s:wrong-image' % (fn, shape)
+            # where the requested occurrence sits and what it looks like: a lone (possibly signed) operand
+            # that is the whole expression / inside a longer one; spelled like a number word or not
+            where = 'lone' if is_lone(beh) else 'inner'
+            what = 'numeric-word' if t['text'] in NUMERIC_WORDS else 'name'
+            kept = 'left-unrenamed' if g == t else 'wrong-image'
+            return '%s:%s:%s:%s-%s' % (fn, shape, kept, where, what)
     return '%s:%s:value' % (fn, shape)
+
+
+def is_lone(beh):
+    """Tokens!Lone as emitted by TLC (recomputed for replay files written before the field existed)"""
+    toks = beh['toks']
+    return beh.get('lone', len(toks) == 1 or (len(toks) == 2 and toks[0]['kind'] == 'OP'))
+
+
+def word_is_key(beh):
+    """a numeric-word name of the expression is a key of the map / the target of the call"""
+    names = set(t['text'] for t in beh['toks'] if t['kind'] == 'NAME' and t['text'] in NUMERIC_WORDS)
+    act = beh['acts'][0]
+    if act['kind'] == 'Rename':
+        return any(p['from'] in names for p in act['map'])
+    return act['kind'] == 'RenameOne' and act['target'] in names
 
 
 def nontrivial(beh):
@@ -242,6 +274,10 @@ def judge(rep, behs):
     rep.extra['real_calls'] = rep.extra.get('real_calls', 0) + sum(len(ev) - 1 for _, ev in traces)
     rep.extra['results_evaluated_under_renamed_env'] = rep.extra.get('results_evaluated_under_renamed_env', 0) + \
         sum(1 for _, evs in traces for ev in evs[1:] if ev.get('vok'))
+    rep.extra['lone_operand_expressions'] = rep.extra.get('lone_operand_expressions', 0) + \
+        sum(1 for b in behs if is_lone(b))
+    rep.extra['behaviours_with_numeric_word_key'] = rep.extra.get('behaviours_with_numeric_word_key', 0) + \
+        sum(1 for b in behs if word_is_key(b))
     for i, b in enumerate(behs):
         v = verdicts[i]
         if v == 'ok:':
@@ -262,21 +298,22 @@ def judge(rep, behs):
 
 # (cfg, number of -simulate traces or None for exhaustive)
 INSTANCES = {
-    'quick': [('MC_Tokens_quick.cfg', None), ('MC_Tokens_quick2.cfg', None)],
-    'thorough': [('MC_Tokens_quick.cfg', None), ('MC_Tokens_quick2.cfg', None),
+    'quick': [('MC_Tokens_quick.cfg', None), ('MC_Tokens_quick2.cfg', None), ('MC_Tokens_words.cfg', None)],
+    'thorough': [('MC_Tokens_quick.cfg', None), ('MC_Tokens_quick2.cfg', None), ('MC_Tokens_words.cfg', None),
                  ('MC_Tokens_thorough.cfg', None), ('MC_Tokens_thorough2.cfg', None),
-                 ('MC_Tokens_thorough3.cfg', None), ('MC_Tokens_sim.cfg', 6000)],
+                 ('MC_Tokens_thorough3.cfg', None), ('MC_Tokens_words2.cfg', None),
+                 ('MC_Tokens_sim.cfg', 6000)],
 }
 
 
 def run(rep):
     rep.rule = ('behaviours = all maximal histories of the bounded Tokens instances emitted by TLC: a token '
                 'sequence accepted by the expression grammar (<= MaxUnits steps) followed by one call '
-                '(Rename with a map of the instance, RenameOne, ListNames); each is replayed in three spacings. '
+                '(Rename with a map of the instance, RenameOne, ListNames); each is replayed in four layouts. '
                 'distinct = distinct behaviour JSON; non-trivial = the expression contains a name the call '
                 'has to act on (a key of the map / the target / any name for ListNames)')
     rep.assumptions = ['values are compared on two fixed integer valuations, on the fragment names / integer '
-                       'literals / + - * / unary minus, for maps injective on the names of the expression',
+                       'literals / + - * / unary sign, for maps injective on the names of the expression',
                        'Python tokenize of the interpreter running the check (3.12) defines "token"; inputs are '
                        'tokenizable by construction and checked to tokenize back to the generated sequence',
                        'TLC 1.8 / tla2tools']
